@@ -192,7 +192,15 @@ def run_case(sys_, case, idx, seed):
         before = st.dense(cur)
         cfg_before = cur.evolve_config
         try:
-            new = evolve_once(sys_, cur, scheme, c, dt, td)
+            adaptive_here = bool(c["adaptive"]) and scheme == c["scheme"] and scheme in ("pc_taylor", "pc_rk", "ps", "ps2")
+            if adaptive_here:
+                from . import adaptive_trace
+                with adaptive_trace.LogRecorder() as lrec:
+                    new = evolve_once(sys_, cur, scheme, c, dt, td)
+                evs = adaptive_trace.events(lrec.messages, dt)
+                out.setdefault("adaptive_traces", []).append({"kind": scheme, "target": adaptive_trace.UNITS, "tol": 20, "events": evs or [], "call": ci, "idx": idx})
+            else:
+                new = evolve_once(sys_, cur, scheme, c, dt, td)
         except Exception as e:
             import traceback
             tb = traceback.format_exc(limit=4).splitlines()
